@@ -106,3 +106,48 @@ def _operator_heads_check_registry():
 
 
 structural("quantity.binary_operators_reach_check", _operator_heads_check_registry, props=["C18"])
+
+
+# ---- copy hooks of quantities (scalar magnitudes): a copy is a fresh object of the same class and registry with the same
+# magnitude and the same units; the original is untouched
+from pv.decl import CONTRACTS  # noqa: E402
+
+Q = "pint.facets.plain.quantity:PlainQuantity"
+contract("copy:copy", params={"x": "Num"}, returns="Num", ensures={"same": "result == x"}, modifies=[], trusted=True,
+         note="copy.copy of a scalar magnitude (int, float, Fraction, Decimal are immutable: the value itself)", props=["C18"])
+contract(f"{Q}.__copy__", params={"self": "Ref[PlainQuantity]"}, returns="Ref[PlainQuantity]",
+         requires={"alloc": "allocated(self)"},
+         ensures={"fresh": "fresh(result)", "same_class": "same_class(result, self)",
+                  "magnitude": "result._magnitude == self._magnitude", "units": "result._units == self._units",
+                  "registry": "result._REGISTRY == reg_of_class(result)",
+                  "untouched": "self._magnitude == old(self._magnitude) and self._units == old(self._units)"},
+         modifies=[], props=["C18"])
+contract("copy:deepcopy", params={"x": "Num", "memo": "Opaque"}, returns="Num",
+         cases=[{"_name": "scalar", "x": "Num", "_ensures": {"same": "result == x"}},
+                {"_name": "container", "x": "Ref[UnitsContainer]", "_returns": "Ref[UnitsContainer]",
+                 "_ensures": {"equal_copy": "fresh(result) and same_class(result, x) and wf(result) == wf(x) and "
+                                            "forall[Str](lambda k: view(result)[k] == view(x)[k])"}}],
+         modifies=[], trusted=True,
+         note="copy.deepcopy of a scalar is the value; of a UnitsContainer it goes through object.__reduce_ex__ with the verified "
+              "__getstate__/__setstate__ pair (c04_util) - the pickle protocol machinery itself is CPython's", props=["C18"])
+contract(f"{Q}.__deepcopy__", params={"self": "Ref[PlainQuantity]", "memo": "Opaque"}, returns="Ref[PlainQuantity]",
+         requires={"alloc": "allocated(self)"},
+         ensures={"fresh": "fresh(result) and fresh(result._units)", "same_class": "same_class(result, self)",
+                  "magnitude": "result._magnitude == self._magnitude",
+                  "units_equal": "forall[Str](lambda k: view(result._units)[k] == view(self._units)[k])",
+                  "registry": "result._REGISTRY == reg_of_class(result)",
+                  "untouched": "self._magnitude == old(self._magnitude) and self._units == old(self._units)"},
+         modifies=[], props=["C18"])
+
+U = "pint.facets.plain.unit:PlainUnit"
+contract(f"{U}.__copy__", params={"self": "Ref[PlainUnit]"}, returns="Ref[PlainUnit]",
+         requires={"alloc": "allocated(self) and allocated(self._units)"},
+         ensures={"fresh": "fresh(result)", "same_class": "same_class(result, self)", "units": "result._units == self._units",
+                  "untouched": "self._units == old(self._units)"},
+         modifies=[], props=["C18"])
+contract(f"{U}.__deepcopy__", params={"self": "Ref[PlainUnit]", "memo": "Opaque"}, returns="Ref[PlainUnit]",
+         requires={"alloc": "allocated(self) and allocated(self._units)"},
+         ensures={"fresh": "fresh(result) and fresh(result._units)", "same_class": "same_class(result, self)",
+                  "units_equal": "forall[Str](lambda k: view(result._units)[k] == view(self._units)[k])",
+                  "untouched": "self._units == old(self._units)"},
+         modifies=[], props=["C18"])
